@@ -13,7 +13,7 @@ from pyvc.engine import (Contract, Val, VInt, VBool, VStr, VObj, VList, VTuple, 
 
 
 class Setup(Contract):
-    props = ('C12', 'C13')
+    props = ('C12', 'C13', 'C05', 'C20')
     file = 'ombott/ombott.py'
     qualname = 'Ombott.setup'
     expected_labels = ('setup.request_gets_the_merged_config', 'setup.merged_config_built_from_the_argument')
@@ -46,7 +46,7 @@ class Setup(Contract):
 
 
 class Chunked(Contract):
-    props = ('C05',)
+    props = ('C05', 'C07', 'C13', 'C04')
     file = 'ombott/request_pkg/body_mixin.py'
     qualname = 'BodyMixin.chunked'
     assumptions = ('str.lower(): uninterpreted except that lower(a + b) == lower(a) + lower(b) is NOT needed: the header value is given as '
